@@ -420,4 +420,23 @@ theorem itimediff_pos_toNat (a b : U32) (h : itimediff a b > 0) : ((a - b).toNat
   · rw [if_pos hc]
   · omega
 
+theorem itimediff_pos_of_ne (a b : U32) (h1 : ¬ itimediff a b < 0) (h2 : a ≠ b) : itimediff a b > 0 := by
+  unfold itimediff at h1 ⊢
+  have : (a - b).toInt ≠ 0 := by
+    intro h
+    apply h2
+    have : a - b = 0 := by
+      apply BitVec.eq_of_toInt_eq; simpa using h
+    bv_omega
+  omega
+
+theorem mem_zip_self {α : Type} (l : List α) (p : α × α) (h : p ∈ l.zip l) : p.1 = p.2 := by
+  induction l with
+  | nil => simp at h
+  | cons a t ih =>
+    simp only [List.zip_cons_cons, List.mem_cons] at h
+    rcases h with rfl | h
+    · rfl
+    · exact ih h
+
 end KcpVerif.Kcp
